@@ -204,3 +204,108 @@ def check_loop_progress(chk, lib):
                       "on_entry subtracts the wire blockLength per entry and neither on_group nor on_entry bounds numInGroup or "
                       "requires a positive amount: with blockLength = 0 and entries without variable-length members an iteration "
                       "consumes nothing, so the work is bounded by numInGroup (up to 2^64-1), not by n")
+
+
+def check_block_length_state(chk, lib):
+    """the visitor keeps the wire blockLength of the group being traversed in `group_block_length`; on_entry charges
+    that amount per entry.  Inductive argument, one row per step:
+      A  on_group stores the wire blockLength of *its own* header before it visits the entries;
+      B  every on_group instantiation returns with group_block_length equal to its value on entry (E2 post-state on
+         every path), so a nested group visited inside an entry leaves the enclosing group's value in place;
+      C  nothing else writes the field (who-writes over the class: only set_group_block_length assigns it, and only
+         on_group calls that)."""
+    cls = "sbepp::detail::size_bytes_checked_visitor"
+    ogs = lib.fns(cls, "on_group")
+    if not ogs:
+        chk.broke("size_bytes_checked_visitor::on_group not found")
+        return
+    # ---- A (AST, source order of the calls inside the body)
+    f = ogs[0]
+    calls = [x for x in walk(f["body"]) if (x.get("callee") or {}).get("name") in ("set_group_block_length", "visit_children")]
+    names = [x["callee"]["name"] for x in calls]
+    errs = []
+    if "visit_children" not in names or "set_group_block_length" not in names[:max(0, names.index("visit_children") if "visit_children" in names else 0)]:
+        errs.append("no set_group_block_length call before visit_children")
+    else:
+        first = calls[names.index("set_group_block_length")]
+        arg = (first.get("args") or [None])[0]
+        hdr_ok = False
+        p0 = (f.get("params") or [{}])[0].get("did")
+        locs = {x["did"]: x for x in walk(f["body"]) if x.get("k") == "VarDecl" and "did" in x}
+        for y in walk(arg or {}):
+            if (y.get("callee") or {}).get("name") == "blockLength":
+                for z in walk(y):
+                    if z.get("k") == "DeclRefExpr" and z.get("did") in locs:
+                        init = locs[z["did"]].get("init")
+                        ini_calls = [(w.get("callee") or {}).get("name") for w in walk(init or {})]
+                        ini_refs = [w.get("did") for w in walk(init or {}) if w.get("k") == "DeclRefExpr"]
+                        if "get_header" in ini_calls and p0 in ini_refs:
+                            hdr_ok = True
+        if not hdr_ok:
+            errs.append("the value stored before visiting the entries is not blockLength() of get_header(<this group>)")
+    if errs:
+        chk.violation("C06.state", "on_group:sets-own-block-length", where(f), "on_group: " + "; ".join(errs))
+    else:
+        chk.ok("C06.state", "on_group:sets-own-block-length", {"calls": names})
+    # ---- B (E2)
+    pre = sym("this.group_block_length")
+    decided = 0
+    for f in ogs:
+        try:
+            s = lib.summary(f)
+        except (PathLimit, AnalysisBroken):
+            continue
+        bad = []
+        for p in s.live:
+            th = p.post.get("this")
+            g = th.fields.get("group_block_length") if isinstance(th, Obj) else None
+            if g is not None and not (isinstance(g, Lin) and g == pre):
+                bad.append(show(g) if isinstance(g, Lin) else str(g)[:60])
+        decided += 1
+        key = "on_group:restores|" + (f.get("targs") or ["?"])[0][-50:]
+        if bad:
+            chk.violation("C06.state", "on_group:restores-block-length", where(f),
+                          "%s returns with group_block_length = %s instead of the value it had on entry: the entries of the "
+                          "enclosing group that follow a nested group are charged the nested group's blockLength"
+                          % (f["qn"][:140], sorted(set(bad))[:2]))
+        else:
+            chk.ok("C06.state", key, {"paths": len(s.live)})
+    chk.floor("on_group instantiations with decided post-state", decided, 5)
+    # ---- C (who writes the field)
+    writers, callers = set(), set()
+    for fn in lib.facts["functions"]:
+        if fn.get("cls") != cls and not (fn.get("qn") or "").startswith(cls + "::"):
+            continue
+        if fn.get("body") is None:
+            continue
+        nm = fn["name"]
+        for x in walk(fn["body"]):
+            if x.get("k") in ("BinaryOperator", "CompoundAssignOperator") and x.get("op", "").endswith("=") and x.get("op") not in ("==", "!=", "<=", ">="):
+                l = x.get("lhs") or {}
+                if l.get("k") == "MemberExpr" and l.get("name") == "group_block_length":
+                    writers.add(nm)
+            if x.get("k") == "UnaryOperator" and x.get("op") in ("++", "--"):
+                l = x.get("sub") or {}
+                if l.get("k") == "MemberExpr" and l.get("name") == "group_block_length":
+                    writers.add(nm)
+            if (x.get("callee") or {}).get("name") == "set_group_block_length":
+                callers.add(nm)
+    if writers - {"set_group_block_length", "size_bytes_checked_visitor"} or callers - {"on_group"}:
+        chk.violation("C06.state", "block-length-writers", where(ogs[0]),
+                      "group_block_length is written by %s and set_group_block_length is called by %s; expected only "
+                      "set_group_block_length / on_group" % (sorted(writers), sorted(callers)))
+    elif not writers or not callers:
+        chk.broke("C06.state: no writer of group_block_length found (renamed?)")
+    else:
+        chk.ok("C06.state", "block-length-writers", {"writers": sorted(writers), "callers": sorted(callers)})
+    # set_group_block_length row
+    for f in lib.fns(cls, "set_group_block_length")[:1]:
+        s = lib.summary(f)
+        p = s.live[0]
+        th = p.post.get("this")
+        g = th.fields.get("group_block_length") if isinstance(th, Obj) else None
+        if len(s.live) != 1 or not isinstance(g, Lin) or g != sym("block_length") or not isinstance(p.ret, Lin) or p.ret != pre:
+            chk.violation("C06.row", "set_group_block_length", where(f), "set_group_block_length must store its argument and return the previous value; got %s / %s"
+                          % (show(g) if isinstance(g, Lin) else g, show(p.ret) if isinstance(p.ret, Lin) else p.ret))
+        else:
+            chk.ok("C06.row", "set_group_block_length", {})
